@@ -6,11 +6,13 @@ package verifrt
 
 import (
 	"encoding/json"
+	"runtime"
 	"fmt"
 	"math"
 	"os"
 	"strconv"
 	"strings"
+	"time"
 )
 
 type replayFile struct {
@@ -165,9 +167,21 @@ func Clean(s string) bool { return !strings.ContainsAny(s, "\r\n") }
 // Symbolic reports whether the harness runs under the symbolic executor.
 func Symbolic() bool { return false }
 
-func Quiesce() {}
+// Quiesce waits until the goroutines started by the code under test have had time to finish.
+func Quiesce() {
+	for i := 0; i < 20; i++ {
+		runtime.Gosched()
+		time.Sleep(2 * time.Millisecond)
+	}
+}
 
 func MapOrderND(on bool) {}
+
+// ScheduleND: under the symbolic executor every scheduling point forks over the runnable threads.
+func ScheduleND(on bool) {}
+
+// Yield is a voluntary scheduling point.
+func Yield() { runtime.Gosched() }
 
 func RawEqual(a, b string) bool { return a == b }
 
